@@ -795,4 +795,197 @@ theorem runWith_rel {lo hi : Rat} {f : Col Rat → Col Rat} (hf : ∀ n w, Col.R
   | succ k ih => intro n w h; exact List.Forall₂.cons (hf n w h) (ih _ _ (hf n w h))
 
 
+/-! ### stagnant layer -/
+
+
+/-- what the mobile cell gives up the immobile cell receives, and vice versa -/
+def StagW.Conserving (w : StagW Rat) : Prop := w.mSelf + w.imFromM = 1 ∧ w.imSelf + w.mFromIm = 1
+
+def StagW.Nonneg (w : StagW Rat) : Prop := 0 ≤ w.mSelf ∧ 0 ≤ w.mFromIm ∧ 0 ≤ w.imSelf ∧ 0 ≤ w.imFromM
+
+/-- the exchange fractions built by `transport()` conserve mass exactly when the water masses of the two cells are in
+the ratio of the porosities (`water_im · th_m = water_m · th_im`) — for every value of the exponential `f` -/
+theorem stagWeights_conserving (f thM thIm wm wim : Rat) (hM : thM ≠ 0) (hwm : wm ≠ 0) (hwi : wim ≠ 0)
+    (hr : wim * thM = wm * thIm) : (stagWeights f thM thIm wm wim).Conserving := by
+  unfold StagW.Conserving stagWeights stagFactors
+  simp only
+  generalize thM / (thM + thIm) - thM / (thM + thIm) * f = g
+  constructor
+  · have : g * wim / wm = g * thIm / thM := by
+      rw [div_eq_div_iff hwm hM]
+      have e : g * wim * thM = g * (wim * thM) := by ring
+      rw [e, hr]; ring
+    linarith
+  · have : g * thIm / thM * wm / wim = g := by
+      rw [div_eq_iff hwi, div_mul_eq_mul_div, div_eq_iff hM]
+      have e : g * thIm * wm = g * (wm * thIm) := by ring
+      rw [e, ← hr]; ring
+    linarith
+
+theorem stagWeights_nonneg {f thM thIm wm wim : Rat} (hf0 : 0 ≤ f) (hf1 : f ≤ 1) (hM : 0 < thM) (hI : 0 < thIm)
+    (hwm : 0 < wm) (hwi : 0 < wim) : (stagWeights f thM thIm wm wim).Nonneg := by
+  have hb : 0 < thM / (thM + thIm) := by positivity
+  have hb1 : thM / (thM + thIm) ≤ 1 := by rw [div_le_one (by positivity)]; linarith
+  have himm : 0 ≤ thM / (thM + thIm) - thM / (thM + thIm) * f := by nlinarith
+  have himm1 : thM / (thM + thIm) - thM / (thM + thIm) * f ≤ 1 := by nlinarith
+  have hmfm : (thM / (thM + thIm) - thM / (thM + thIm) * f) * thIm / thM ≤ 1 := by
+    rw [div_le_one hM]
+    have e : thM / (thM + thIm) * thIm = thM * (thIm / (thM + thIm)) := by ring
+    have h2 : thIm / (thM + thIm) ≤ 1 := by rw [div_le_one (by positivity)]; linarith
+    have h3 : 0 ≤ thIm / (thM + thIm) := by positivity
+    have : (thM / (thM + thIm) - thM / (thM + thIm) * f) * thIm = thM * (thIm / (thM + thIm)) * (1 - f) := by ring
+    rw [this]
+    nlinarith [mul_nonneg (le_of_lt hM) h3]
+  unfold StagW.Nonneg stagWeights stagFactors
+  simp only
+  refine ⟨by linarith, by positivity, by linarith, by positivity⟩
+
+theorem stagGo_sum : ∀ (ms is : List Rat) (sw : List (Option (StagW Rat))), (∀ w, some w ∈ sw → w.Conserving) →
+    (stagGo ms is sw).1.sum + (stagGo ms is sw).2.sum = ms.sum + is.sum := by
+  intro ms
+  induction ms with
+  | nil => intro is sw _; simp [stagGo]
+  | cons m ms ih =>
+    intro is sw h
+    cases is with
+    | nil => simp [stagGo]
+    | cons i is =>
+      cases sw with
+      | nil => simp [stagGo]
+      | cons w ws =>
+        have hrest := ih is ws (fun w' hw' => h w' (by simp [hw']))
+        cases w with
+        | none => simp only [stagGo, List.sum_cons]; linarith
+        | some w =>
+          obtain ⟨h1, h2⟩ := h w (by simp)
+          simp only [stagGo, List.sum_cons]
+          have e1 : w.mSelf = 1 - w.imFromM := by linarith
+          have e2 : w.imSelf = 1 - w.mFromIm := by linarith
+          rw [e1, e2]
+          linarith
+
+theorem stagGo_length : ∀ (ms is : List Rat) (sw : List (Option (StagW Rat))),
+    (stagGo ms is sw).1.length = ms.length ∧ (stagGo ms is sw).2.length = is.length := by
+  intro ms
+  induction ms with
+  | nil => intro is sw; simp [stagGo]
+  | cons m ms ih =>
+    intro is sw
+    cases is with
+    | nil => simp [stagGo]
+    | cons i is =>
+      cases sw with
+      | nil => simp [stagGo]
+      | cons w ws =>
+        obtain ⟨a, b⟩ := ih is ws
+        cases w <;> simp [stagGo, a, b]
+
+theorem stagApply_sum {sw : List (Option (StagW Rat))} (h : ∀ w, some w ∈ sw → w.Conserving) (c : SCol Rat) :
+    (stagApply sw c).sum = c.sum := by
+  simp only [stagApply, SCol.sum]
+  exact stagGo_sum _ _ _ h
+
+theorem mixStagStep_sum {ws : List (W Rat)} (hs : SymFrom 0 ws) {sw : List (Option (StagW Rat))}
+    (h : ∀ w, some w ∈ sw → w.Conserving) {c : SCol Rat} (hl : c.mob.cells.length = ws.length) :
+    (mixStagStep ws sw c).sum = c.sum ∧ (mixStagStep ws sw c).mob.cells.length = c.mob.cells.length := by
+  unfold mixStagStep
+  constructor
+  · rw [stagApply_sum h]
+    have := mixStep_sum hs hl
+    simp only [SCol.sum, Col.sum] at this ⊢
+    rw [this]
+  · simp only [stagApply]
+    rw [(stagGo_length _ _ _).1, mixStep_cells_length]
+
+theorem iterS_mixStagStep_sum {ws : List (W Rat)} (hs : SymFrom 0 ws) {sw : List (Option (StagW Rat))}
+    (h : ∀ w, some w ∈ sw → w.Conserving) : ∀ (k : Nat) (c : SCol Rat), c.mob.cells.length = ws.length →
+    (iterS (mixStagStep ws sw) k c).sum = c.sum ∧ (iterS (mixStagStep ws sw) k c).mob.cells.length = c.mob.cells.length := by
+  intro k
+  induction k with
+  | zero => intro c _; exact ⟨rfl, rfl⟩
+  | succ k ih =>
+    intro c hl
+    obtain ⟨a, b⟩ := mixStagStep_sum hs h hl
+    obtain ⟨a2, b2⟩ := ih (mixStagStep ws sw c) (by rw [b]; exact hl)
+    exact ⟨by rw [iterS, a2, a], by rw [iterS, b2, b]⟩
+
+
+
+theorem rel2 {lo hi a b x y wx wy : Rat} (ha : 0 ≤ a) (hb : 0 ≤ b) (hx : Rel lo hi x wx) (hy : Rel lo hi y wy) :
+    Rel lo hi (a * x + b * y) (a * wx + b * wy) := by
+  constructor
+  · have := mul_le_mul_of_nonneg_left hx.1 ha
+    have := mul_le_mul_of_nonneg_left hy.1 hb
+    nlinarith
+  · have := mul_le_mul_of_nonneg_left hx.2 ha
+    have := mul_le_mul_of_nonneg_left hy.2 hb
+    nlinarith
+
+theorem stagGo_rel {lo hi : Rat} : ∀ (ms mw is iw : List Rat) (sw : List (Option (StagW Rat))),
+    (∀ w, some w ∈ sw → w.Nonneg) → List.Forall₂ (Rel lo hi) ms mw → List.Forall₂ (Rel lo hi) is iw →
+    List.Forall₂ (Rel lo hi) (stagGo ms is sw).1 (stagGo mw iw sw).1 ∧
+    List.Forall₂ (Rel lo hi) (stagGo ms is sw).2 (stagGo mw iw sw).2 := by
+  intro ms mw is iw sw h hm
+  induction hm generalizing is iw sw with
+  | nil => intro hi'; cases hi' <;> simp [stagGo] <;> first | exact List.Forall₂.nil | (constructor <;> assumption)
+  | @cons m w' ms' mw' hmw hrest ih =>
+    intro hi'
+    cases hi' with
+    | nil => simpa [stagGo] using List.Forall₂.cons hmw hrest
+    | @cons i wi is' iw' hiw hirest =>
+      cases sw with
+      | nil => exact ⟨by simpa [stagGo] using List.Forall₂.cons hmw hrest, by simpa [stagGo] using List.Forall₂.cons hiw hirest⟩
+      | cons w ws =>
+        obtain ⟨r1, r2⟩ := ih is' iw' ws (fun w' hw' => h w' (by simp [hw'])) hirest
+        cases w with
+        | none => exact ⟨by simpa [stagGo] using List.Forall₂.cons hmw r1, by simpa [stagGo] using List.Forall₂.cons hiw r2⟩
+        | some w =>
+          obtain ⟨h1, h2, h3, h4⟩ := h w (by simp)
+          simp only [stagGo]
+          exact ⟨List.Forall₂.cons (rel2 h1 h2 hmw hiw) r1, List.Forall₂.cons (rel2 h4 h3 hmw hiw) r2⟩
+
+/-- solute amount and water mass of a column with stagnant layer, cell-wise ratio within `[lo, hi]` -/
+def SCol.RelW (lo hi : Rat) (n w : SCol Rat) : Prop :=
+  Col.RelW lo hi n.mob w.mob ∧ List.Forall₂ (Rel lo hi) n.imm w.imm
+
+theorem stagApply_rel {lo hi : Rat} {sw : List (Option (StagW Rat))} (h : ∀ w, some w ∈ sw → w.Nonneg) {n w : SCol Rat}
+    (hr : SCol.RelW lo hi n w) : SCol.RelW lo hi (stagApply sw n) (stagApply sw w) := by
+  obtain ⟨⟨a, b, c⟩, d⟩ := hr
+  obtain ⟨r1, r2⟩ := stagGo_rel _ _ _ _ sw h b d
+  exact ⟨⟨a, r1, c⟩, r2⟩
+
+theorem mixStagStep_rel {lo hi : Rat} {ws : List (W Rat)} (hw : ∀ w ∈ ws, w.Convex) {sw : List (Option (StagW Rat))}
+    (h : ∀ w, some w ∈ sw → w.Nonneg) {n w : SCol Rat} (hr : SCol.RelW lo hi n w) :
+    SCol.RelW lo hi (mixStagStep ws sw n) (mixStagStep ws sw w) :=
+  stagApply_rel h ⟨mixStep_rel hw hr.1, hr.2⟩
+
+theorem iterS_rel {lo hi : Rat} {f : SCol Rat → SCol Rat} (hf : ∀ n w, SCol.RelW lo hi n w → SCol.RelW lo hi (f n) (f w)) :
+    ∀ (k : Nat) (n w : SCol Rat), SCol.RelW lo hi n w → SCol.RelW lo hi (iterS f k n) (iterS f k w) := by
+  intro k
+  induction k with
+  | zero => intro n w h; exact h
+  | succ k ih => intro n w h; exact ih _ _ (hf n w h)
+
+theorem transportStagStepWith_rel {lo hi : Rat} {ws : List (W Rat)} (hw : ∀ w ∈ ws, w.Convex) {sw : List (Option (StagW Rat))}
+    (h : ∀ w, some w ∈ sw → w.Nonneg) (nmix pre : Nat) (f : Flow) {n w : SCol Rat} (hr : SCol.RelW lo hi n w) :
+    SCol.RelW lo hi (transportStagStepWith ws sw nmix pre f n) (transportStagStepWith ws sw nmix pre f w) := by
+  unfold transportStagStepWith
+  simp only
+  have h1 := iterS_rel (fun _ _ hh => mixStagStep_rel hw h hh) pre n w hr
+  have h2 : SCol.RelW lo hi { iterS (mixStagStep ws sw) pre n with mob := shift f (iterS (mixStagStep ws sw) pre n).mob }
+      { iterS (mixStagStep ws sw) pre w with mob := shift f (iterS (mixStagStep ws sw) pre w).mob } :=
+    ⟨shift_rel f h1.1, h1.2⟩
+  apply iterS_rel (fun _ _ hh => mixStagStep_rel hw h hh)
+  split
+  · exact stagApply_rel h h2
+  · exact h2
+
+theorem runWithS_rel {lo hi : Rat} {f : SCol Rat → SCol Rat} (hf : ∀ n w, SCol.RelW lo hi n w → SCol.RelW lo hi (f n) (f w)) :
+    ∀ (k : Nat) (n w : SCol Rat), SCol.RelW lo hi n w → List.Forall₂ (SCol.RelW lo hi) (runWithS f k n) (runWithS f k w) := by
+  intro k
+  induction k with
+  | zero => intro n w _; exact List.Forall₂.nil
+  | succ k ih => intro n w h; exact List.Forall₂.cons (hf n w h) (ih _ _ (hf n w h))
+
+
 end PhreeqcVerif.Transport
